@@ -10,6 +10,7 @@ import (
 	"sort"
 	"time"
 
+	errorsmod "cosmossdk.io/errors"
 	sdkmath "cosmossdk.io/math"
 	storetypes "cosmossdk.io/store/types"
 	banktypes "cosmossdk.io/x/bank/types"
@@ -89,8 +90,10 @@ type world struct {
 	flushing  bool
 	noDumps   bool
 
-	da    *daItem
-	daSeq int
+	da       *daItem
+	daSeq    int
+	deputies map[int]int // validator id -> account index registered as its proof deputy
+	consH    hash.Hash   // what enters LastResultsHash: code, data, gas wanted / used (+ codespace)
 	prop  *propInfo
 
 	lp   lptypes.MsgServer
@@ -140,7 +143,11 @@ func (w *world) exec(kind, arg string, f func(ctx sdk.Context) (gogoproto.Messag
 	if err != nil {
 		op.Err = err.Error()
 		writeLP(w.resH, []byte(kind), []byte("err"), []byte(err.Error()), gas[:])
+		codespace, code, _ := errorsmod.ABCIInfo(err, false)
+		op.Code = fmt.Sprintf("%s/%d", codespace, code)
+		writeLP(w.consH, []byte(op.Code), gas[:])
 	} else {
+		writeLP(w.consH, []byte("ok"), gas[:])
 		var rb []byte
 		if resp != nil {
 			rb, _ = gogoproto.Marshal(resp)
@@ -234,6 +241,8 @@ func (w *world) endBlock(dt time.Duration) {
 			var c [4]byte
 			binary.BigEndian.PutUint32(c[:], tr.Code)
 			writeLP(w.resH, []byte("tx"), c[:], tr.Data, g[:], []byte(tr.Codespace), []byte(tr.Log))
+			writeLP(w.consH, c[:], tr.Data, g[:], []byte(tr.Codespace))
+			blk.TxResults = append(blk.TxResults, fmt.Sprintf("%s/%d gas %d/%d data %x", tr.Codespace, tr.Code, tr.GasWanted, tr.GasUsed, sha256.Sum256(tr.Data)))
 			w.recordEvents(tr.Events)
 			if tr.Code == 0 {
 				w.count("tx:ok")
@@ -251,9 +260,10 @@ func (w *world) endBlock(dt time.Duration) {
 		fc, _ := w.faultCounters()
 		blk.Faults = fc
 	}
+	blk.Consensus = hex.EncodeToString(w.consH.Sum(nil))
 	blk.Results = hex.EncodeToString(w.resH.Sum(nil))
 	blk.Events = hex.EncodeToString(w.evH.Sum(nil))
-	w.resH, w.evH = sha256.New(), sha256.New()
+	w.resH, w.evH, w.consH = sha256.New(), sha256.New(), sha256.New()
 	if blk.AppHash == "" {
 		blk.AppHash = "ffffffffffffffffffffffffffffffff"
 	}
@@ -290,7 +300,7 @@ func newWorld(seed int64, o worldOpts) *world {
 		}
 	}
 	w := &world{h: h, noDumps: o.NoDumps, r: emit.NewRand(seed), out: &childOut{Coverage: map[string]int{}, Hist: map[string]int{}},
-		valID: map[string]int{}, resH: sha256.New(), evH: sha256.New(), txSigners: map[string]uint64{}}
+		valID: map[string]int{}, resH: sha256.New(), evH: sha256.New(), consH: sha256.New(), deputies: map[int]int{}, txSigners: map[string]uint64{}}
 	w.lp = lpkeeper.NewMsgServerImpl(h.App.LiquiditypoolKeeper)
 	w.sw = swapkeeper.NewMsgServerImpl(h.App.SwapKeeper)
 	w.li = likeeper.NewMsgServerImpl(h.App.LiquidityincentiveKeeper)
@@ -332,6 +342,16 @@ func (w *world) setup() {
 		})
 		if err != nil {
 			panic(fmt.Sprintf("setup: create position: %v", err))
+		}
+	}
+	// proof deputies with a key, so that validity-proof messages can also go through FinalizeBlock
+	for v := 0; v < 4 && v < len(w.vals); v++ {
+		a := 3 + v
+		err := w.exec("da-register-deputy", fmt.Sprintf("val %d -> acct %d", v, a), func(ctx sdk.Context) (gogoproto.Message, error) {
+			return w.dam.RegisterProofDeputy(ctx, &datypes.MsgRegisterProofDeputy{Sender: w.vals[v].Acc.String(), DeputyAddress: w.h.Accts[a].Addr.String()})
+		})
+		if err == nil {
+			w.deputies[v] = a
 		}
 	}
 	for a := 1; a <= 3; a++ {
@@ -487,6 +507,7 @@ func (w *world) opDa() {
 	case 1:
 		// challengers (accounts 3..6, never the publisher) name shard indices; together they usually
 		// reach the 33% threshold, sometimes not (then the item is verified after the challenge period)
+		w.multiInvalidity(it)
 		nch := 1 + r.Intn(3)
 		for c := 0; c < nch; c++ {
 			ch := 3 + (c+r.Intn(4))%4
@@ -536,6 +557,17 @@ func (w *world) opDa() {
 		}
 		// validity proofs written straight into the store (producing real zero-knowledge proofs is
 		// out of scope here; the tally only reads sender and indices)
+		for k := 0; k < 2; k++ {
+			w.multiValidityProof(it)
+		}
+		w.endBlock(time.Duration(1+r.Intn(5)) * time.Second) // deputy-signed copies run inside the proof period
+		if w.stopped {
+			return
+		}
+		if d, found, _ := w.h.App.DaKeeper.GetPublishedData(w.h.Ctx(), it.uri); !found || d.Status != datypes.Status_STATUS_CHALLENGING {
+			w.da = nil
+			return
+		}
 		// which indices a validator proves is drawn from the PRNG only: the history must not
 		// depend on anything the implementation computes (in particular not on the shard
 		// assignment function, which is part of what is being compared across processes)
@@ -721,6 +753,8 @@ func (w *world) loop(n int) {
 			w.opDa()
 		case k < 84:
 			w.opGov()
+		case k < 91:
+			w.opMultiDefect()
 		default:
 			w.endBlock(time.Duration(1+w.r.Intn(10)) * time.Second)
 		}
